@@ -160,6 +160,7 @@ func main() {
 				case *ast.CallExpr:
 					rewriteBlockingCall(fi, x, info, offOf, &blockingCalls)
 					rewriteClockCall(fi, x, info, offOf, &clockCalls)
+					rewriteSearchCall(fi, x, info, offOf)
 				case *ast.SelectStmt:
 					// the communications of a select stay as they are (a select that blocks between two tasks
 					// is one of the things the simulator cannot make cooperative: see DESIGN.md §3.8)
@@ -383,14 +384,25 @@ func rewriteBlockingCall(fi *fileInfo, call *ast.CallExpr, info *types.Info, off
 	}
 	x := string(fi.src[offOf(sel.X.Pos()):offOf(sel.X.End())])
 	switch named.Obj().Name() + "." + fn.Name() {
-	case "Mutex.Lock", "RWMutex.Lock":
+	case "Mutex.Lock":
 		*n++
 		fi.edits = append(fi.edits, edit{off: offOf(call.Pos()), end: offOf(call.End()), prio: 5,
 			text: fmt.Sprintf("func() { for !(%s).TryLock() { verifsim.Blocked() } }()", x)})
-	case "RWMutex.RLock":
+	case "RWMutex.Lock", "RWMutex.RLock":
+		// through verifsim.RWLock / RWRLock, which keep sync.RWMutex's writer preference: while a
+		// Lock call waits, new RLock calls wait too (a recursive read lock deadlocks on the real
+		// thing as soon as a writer shows up in between; it must do so in the simulation)
+		tv, ok := info.Types[sel.X]
+		if !ok {
+			return
+		}
+		ptr := "&(" + x + ")"
+		if _, isPtr := tv.Type.Underlying().(*types.Pointer); isPtr {
+			ptr = "(" + x + ")"
+		}
 		*n++
 		fi.edits = append(fi.edits, edit{off: offOf(call.Pos()), end: offOf(call.End()), prio: 5,
-			text: fmt.Sprintf("func() { for !(%s).TryRLock() { verifsim.Blocked() } }()", x)})
+			text: fmt.Sprintf("verifsim.RW%s(%s)", fn.Name(), ptr)})
 	case "Cond.Wait", "Cond.Signal", "Cond.Broadcast":
 		// X.Wait() -> verifsim.CondWait(X) etc.: a task that waits for another task's Signal must let
 		// that task run (sync.Cond is used through a pointer: NewCond returns one, and a Cond must
@@ -612,6 +624,77 @@ func isBytesLike(info *types.Info, e ast.Expr) bool {
 	return false
 }
 
+// rewriteSearchCall charges a search by what it scanned: bytes.Index(b, sep) and its relatives
+// return where they stopped, so the cost is known afterwards – position p of the match, or the
+// whole operand when there is none (LastIndex: counted from the end). A loop that advances by
+// what it found is charged its input once; a loop that searches to the end again and again is
+// charged what it costs.
+func rewriteSearchCall(fi *fileInfo, call *ast.CallExpr, info *types.Info, offOf func(token.Pos) int) {
+	sel, ok := call.Fun.(*ast.SelectorExpr)
+	if !ok || len(call.Args) < 2 {
+		return
+	}
+	id, ok := sel.X.(*ast.Ident)
+	if !ok {
+		return
+	}
+	pn, ok := info.Uses[id].(*types.PkgName)
+	if !ok || (pn.Imported().Path() != "bytes" && pn.Imported().Path() != "strings") {
+		return
+	}
+	wrap := ""
+	switch sel.Sel.Name {
+	case "Index", "IndexByte", "IndexRune", "IndexAny", "IndexFunc":
+		wrap = "verifsim.Idx("
+	case "LastIndex", "LastIndexByte", "LastIndexAny", "LastIndexFunc":
+		wrap = "verifsim.LastIdx("
+	default:
+		return
+	}
+	if !pureExpr(call.Args[0], info) {
+		return
+	}
+	arg0 := string(fi.src[offOf(call.Args[0].Pos()):offOf(call.Args[0].End())])
+	fi.edits = append(fi.edits,
+		edit{off: offOf(call.Pos()), end: offOf(call.Pos()), text: wrap, prio: 4},
+		edit{off: offOf(call.End()), end: offOf(call.End()), text: ", len(" + arg0 + "))", prio: -2})
+}
+
+// pureExpr: evaluating the expression a second time has no effect and cannot fail where the first
+// evaluation did not.
+func pureExpr(e ast.Expr, info *types.Info) bool {
+	switch x := e.(type) {
+	case *ast.Ident:
+		return x.Name != "_"
+	case *ast.BasicLit:
+		return true
+	case *ast.ParenExpr:
+		return pureExpr(x.X, info)
+	case *ast.SelectorExpr:
+		if sel, ok := info.Selections[x]; !ok || sel.Kind() != types.FieldVal {
+			return false
+		}
+		return pureExpr(x.X, info)
+	case *ast.StarExpr:
+		return pureExpr(x.X, info)
+	case *ast.UnaryExpr:
+		return x.Op != token.ARROW && x.Op != token.AND && pureExpr(x.X, info)
+	case *ast.BinaryExpr:
+		return x.Op != token.LAND && x.Op != token.LOR && pureExpr(x.X, info) && pureExpr(x.Y, info)
+	case *ast.IndexExpr:
+		return pureExpr(x.X, info) && pureExpr(x.Index, info)
+	case *ast.SliceExpr:
+		return pureExpr(x.X, info) && (x.Low == nil || pureExpr(x.Low, info)) && (x.High == nil || pureExpr(x.High, info)) && (x.Max == nil || pureExpr(x.Max, info))
+	case *ast.CallExpr:
+		if id, ok := x.Fun.(*ast.Ident); ok && (id.Name == "len" || id.Name == "cap") && len(x.Args) == 1 {
+			if _, isBuiltin := info.Uses[id].(*types.Builtin); isBuiltin {
+				return pureExpr(x.Args[0], info)
+			}
+		}
+	}
+	return false
+}
+
 // rewriteClockCall puts the library's clock behind the simulator: time.Now(),
 // time.Since(t), time.Until(t) and time.Sleep(d) become verifsim.Now() etc.,
 // which read (or advance) the simulated clock when the simulator has set one.
@@ -669,6 +752,56 @@ import (
 
 // Hook is set by the simulator before a run starts and cleared after it.
 var Hook func(uint32)
+
+// rwState counts the Lock calls that are waiting on one sync.RWMutex (plain array, norace: see onces).
+type rwState struct {
+	m       *sync.RWMutex
+	waiting int
+}
+
+var (
+	rws  [128]rwState
+	nRWs int
+)
+
+//go:norace
+func rwWaiting(m *sync.RWMutex, delta int) int {
+	for i := 0; i < nRWs; i++ {
+		if rws[i].m == m {
+			rws[i].waiting += delta
+			return rws[i].waiting
+		}
+	}
+	if nRWs == len(rws) {
+		return 0
+	}
+	rws[nRWs] = rwState{m: m, waiting: delta}
+	nRWs++
+	return delta
+}
+
+// RWLock is m.Lock() for the simulator.
+//
+//go:norace
+func RWLock(m *sync.RWMutex) {
+	if m.TryLock() {
+		return
+	}
+	rwWaiting(m, +1)
+	for !m.TryLock() {
+		Blocked()
+	}
+	rwWaiting(m, -1)
+}
+
+// RWRLock is m.RLock() for the simulator: it waits while a writer holds the lock or waits for it.
+//
+//go:norace
+func RWRLock(m *sync.RWMutex) {
+	for rwWaiting(m, 0) > 0 || !m.TryRLock() {
+		Blocked()
+	}
+}
 
 // condState is the notify list of one sync.Cond among the simulator's tasks: waiters take tickets,
 // Signal admits the oldest waiting ticket, Broadcast all of them (the runtime's own algorithm, so
@@ -818,6 +951,30 @@ func W(n int) {
 	}
 }
 
+// Idx charges a forward search by the position it stopped at (n: the operand's length).
+//
+//go:norace
+func Idx(p, n int) int {
+	if p < 0 || p > n {
+		W(n)
+	} else {
+		W(p)
+	}
+	return p
+}
+
+// LastIdx charges a backward search.
+//
+//go:norace
+func LastIdx(p, n int) int {
+	if p < 0 || p > n {
+		W(n)
+	} else {
+		W(n - p)
+	}
+	return p
+}
+
 // ClockHook is the simulated clock (nil: the real one). Every time.Now /
 // time.Since / time.Until of the library reads it, time.Sleep advances it.
 var (
@@ -956,16 +1113,24 @@ func Y(s uint32) {
 	}
 }
 
-// SortedKeys returns the keys of m ordered by their fmt.Sprint form, so that a
-// range over a map visits keys in a reproducible order.
+// SortedKeys returns the keys of m in the order the simulator chooses (sorted by their fmt.Sprint
+// form, then permuted by OrderHook), so that a range over a map is reproducible.
 func SortedKeys[M ~map[K]V, K comparable, V any](m M) []K {
 	keys := make([]K, 0, len(m))
 	for k := range m {
 		keys = append(keys, k)
 	}
 	sort.Slice(keys, func(i, j int) bool { return fmt.Sprint(keys[i]) < fmt.Sprint(keys[j]) })
+	if h := OrderHook; h != nil {
+		h(len(keys), func(i, j int) { keys[i], keys[j] = keys[j], keys[i] })
+	}
 	return keys
 }
+
+// OrderHook lets the simulator choose the order in which a range over a map visits the keys: the
+// runtime's order is random, the simulator's is a seeded permutation that changes from one
+// range to the next – reproducible, and as unreliable as the real thing.
+var OrderHook func(n int, swap func(i, j int))
 `
 
 // exportSrc generates zz_verif_export.go: tables the harness reflects over, so
